@@ -562,6 +562,14 @@ def real_episodes(seed, lengths=(7, 4, 9)):
 
     rng = random.Random(seed)
     spec = rt.rand_spec(rng, n_nodes=rng.randint(3, 4))
+    shadow = rng.random() < 0.5
+    if shadow:  # some connections are made under a custom input name; the record and its graph still speak of the sending node
+        for c in spec["conns"]:
+            if rng.random() < 0.6:
+                c["name"] = f"in_{c['src']}"
+        if not any(c.get("name") for c in spec["conns"]):
+            spec["conns"][0]["name"] = f"in_{spec['conns'][0]['src']}"
+    want_edges = {(c["src"], c["dst"]) for c in spec["conns"]}
     run = rt.AsyncRun(spec)
     recs = []
     for e, n in enumerate(lengths):
@@ -578,6 +586,9 @@ def real_episodes(seed, lengths=(7, 4, 9)):
     for i, r in enumerate(recs):
         f, g = mon_record_to_graph(r, onp, f"{label} episode {i}")
         fails += f
+        if g is not None and set(g.edges) != want_edges:
+            fails.append(("to_graph_edges", f"{label} episode {i}: to_graph has the edges {sorted(g.edges)}, the system has the connections (sender, receiver) {sorted(want_edges)}"
+                          f"{' (input names: ' + str({c['src'] + '->' + c['dst']: c['name'] for c in spec['conns'] if c.get('name')}) + ')' if shadow else ''}"))
         if g is not None:
             f, _ = mon_networkx(g, run.nodes, onp, f"{label} episode {i}")
             fails += f
@@ -605,6 +616,7 @@ def real_episodes(seed, lengths=(7, 4, 9)):
                     fails.append(("rfilter_stack", f"{label}: filter of the stacked record [{i}] keeps {sorted(b)}, filter of episode {i} keeps {sorted(a)}"))
         except Exception as ex:
             fails.append(("rfilter_exception", f"{label}: ExperimentRecord.filter raised {type(ex).__name__}: {str(ex)[:200]}"))
+    stats["shadow_names"] = bool(shadow)
     stats["subset"] = sorted(sub)
     stats["conns"] = sorted(f"{a}->{b}" for a, b in record_connections(recs[0]))
     return dict(fails=fails[:20], stats=stats, spec=dict(nodes=[n["name"] for n in spec["nodes"]], conns=[(c["src"], c["dst"]) for c in spec["conns"]]))
